@@ -11,3 +11,5 @@ echo "exit=$RC"
 # rebuild the harness against the restored tree so that no stale binary is left behind
 (cd /verif/harness && cargo build --release --offline --workspace >/dev/null 2>&1)
 find /verif/replays -mindepth 1 -delete 2>/dev/null
+# the evidence file now describes the run against the changed tree: put the committed one back
+git -C /verif checkout -- "evidence/$ID.json" 2>/dev/null
